@@ -35,6 +35,12 @@ JOBS = INITCLR + seq_jobs(64, ("quick",), "", 300) + seq_jobs(512, ("thorough",)
       fuc=["myth_queue_pop"], timeout=1800, mem_gb=16, tiers=("thorough",), note="as above, capacity symbolic in [2,4096]"),
 ]
 JOBS += [
+  Job("c02.wsapi_peek", "c02_wsapi.c", "h_wsapi_peek", defines=["-DQMAX=64", "-DVICTIM=1"],
+      replace=["myth_wsqueue_lock_unlock/unlock_contract"], replace_calls=["myth_wsqueue_lock_trylock:verif_pk_trylock"],
+      cbmc=["--unwind", "3", "--unwinding-assertions"], fuc=["myth_wsapi_runqueue_peek", "myth_wsapi_get_hint_size", "myth_wsapi_get_hint_ptr"], timeout=300,
+      note="the retry after a busy lock happens at most once in the model, the sequence re-read loop runs without a concurrent cache writer (both loops then end within the unwinding bound, unwinding assertions on); hint of 0 or 8 bytes"),
+]
+JOBS += [
   Job("c02.wsapi_take.victim%d" % v, "c02_wsapi.c", "h_wsapi_take", defines=["-DQMAX=64", "-DVICTIM=%d" % v],
       replace=["myth_wsqueue_lock_trylock/trylock_contract", "myth_wsqueue_lock_unlock/unlock_contract"],
       restrict_fp=["myth_wsapi_runqueue_take.function_pointer_call.1/verif_decide"],
